@@ -29,6 +29,12 @@ def stmt_for(kind, name):
         'aliased': ['import os as %s' % name],
         'star': ['from os import *'],
         'dupimport': ['import %s, %s.sub' % (name, name)],
+        'fromalias': ['from os import path as %s' % name],
+        'fromalias_us': ['from os import _exit as %s' % name],
+        'fortuple': ['for _a, %s in ():' % name, '    pass'],
+        'withtuple': ['with open(__file__) as (_a, %s):' % name, '    pass'],
+        'comptuple': ['[0 for _a, %s in ()]' % name],
+        'nestedtuple': ['(_a, (%s, _b)) = 1, (2, 3)' % name],
         'aliasclash': ['from os import path as %s, %s' % (name, name)],
         'future': ['from __future__ import annotations'],
         'globaldecl': ['global %s' % name, '%s = 1' % name],
@@ -61,12 +67,16 @@ def render_row(row):
             lines = ['class K:', '    def m(%s):' % params_for(kind, name, True), '        return self']
         elif scope == 'nested':
             lines = ['def outer():', '    def inner(%s):' % params_for(kind, name, False), '        return 0', '    return inner']
+        elif scope == 'inmethod':
+            lines = ['class K:', '    def m(self):', '        def inner(%s):' % params_for(kind, name, False), '            return 0', '        return inner']
+        elif scope == 'lambdainmethod':
+            lines = ['class K:', '    def m(self):', '        return lambda %s: self' % params_for(kind, name, False)]
         else:
             p = params_for(kind, name, False).replace(', /', ', /')
             lines = ['f = lambda %s: 0' % p]
-    elif scope == 'lambda':
+    elif scope in ('lambda', 'lambdainmethod'):
         body = {'walrus': '(%s := 1)' % name, 'comp': '[0 for %s in ()]' % name}[kind]
-        lines = ['f = lambda: %s' % body]
+        lines = ['f = lambda: %s' % body] if scope == 'lambda' else ['class K:', '    def m(self):', '        return lambda: (self, %s)' % body]
     else:
         st = stmt_for(kind, name)
         if scope == 'module':
@@ -79,6 +89,8 @@ def render_row(row):
             lines = ['class K:', '    def m(self):'] + ind(st, 2) + ['        return self']
         elif scope == 'nested':
             lines = ['def outer():', '    def inner():'] + ind(st, 2) + ['        return 0', '    return inner']
+        elif scope == 'inmethod':
+            lines = ['class K:', '    def m(self):', '        def inner():'] + ind(st, 3) + ['            return 0', '        return inner']
     return '\n'.join(lines) + '\n', name
 
 
